@@ -373,15 +373,30 @@ def _create_isotopomer_reactions(
         )
         new_rate_name = rate_name + "__" + rate_suffix
 
-        replacements = dict(zip(base_substrates, new_substrates, strict=True)) | dict(
-            zip(base_products, new_products, strict=True)
-        )
+        # Replace positionally, so that a compound taking part more than once
+        # (e.g. 2 A -> B) contributes each of its isotopomers to the rate
+        replacements: dict[str, list[str]] = {}
+        for base, new in zip(
+            base_substrates + base_products,
+            new_substrates + new_products,
+            strict=True,
+        ):
+            replacements.setdefault(base, []).append(new)
+
+        new_args = []
+        for k in args:
+            if (names := replacements.get(k)) is None:
+                new_args.append(k)
+            elif len(names) > 1:
+                new_args.append(names.pop(0))
+            else:
+                new_args.append(names[0])
 
         model.add_reaction(
             name=new_rate_name,
             fn=function,
             stoichiometry=new_stoichiometry,
-            args=[replacements.get(k, k) for k in args],
+            args=new_args,
         )
 
 
